@@ -52,7 +52,8 @@ def _subsets(n, all_subsets):
                   "RandomWalk(maxiter=) default 80 replaced by the bound `rw_maxiter` so that the give-up branch is reachable"],
            assumes=["the start grid points do not overlap supplied residues (start grid is placed away from the sentinels)"],
            outside=["schedules with more interposed placement calls than `calls`", "graphs outside the shape catalogue"],
-           must_cover=["rewound", "abandoned", "finished", "retry_after_abandon", "tree cached", "trees consolidated"],
+           must_cover=["rewound", "abandoned", "finished", "retry_after_abandon", "tree cached", "trees consolidated",
+                       "two copies of one type with different supplied residues"],
            cfg={"path_timeout_s": 20},
            bounds={"quick": dict(shapes=Q_SHAPES, calls=7, nrewind=(2, 4), rw_maxiter=(2,), all_subsets=False, attempts=1),
                    "thorough": dict(shapes=T_SHAPES[:8] + ["path12"], calls=9, nrewind=(2, 5), rw_maxiter=(2, 3), all_subsets=False, attempts=2)},
@@ -72,17 +73,23 @@ def rewind(sx, B):
     ncalls = B["calls"]
     outcomes = [sx.bool("o%d" % i) for i in range(ncalls)]
 
-    m0 = meta_from_shape("path2", "M0")
+    # the first molecule: another type, completely supplied - or another copy of the type of the molecule under study whose
+    # coordinates are supplied up to its last residue (an input structure that ends inside the first copy)
+    twin = sx.sel("first_molecule", ["another type, supplied", "same type, all but the last residue supplied"]) != "another type, supplied"
+    m0 = meta_from_shape(shape, "M1") if twin else meta_from_shape("path2", "M0")
     m1 = meta_from_shape(shape, "M1")
     m2 = meta_from_shape("single", "M2")
+    m0_given = list(range(n - 1)) if twin else [0, 1]
+    if twin:
+        sx.cover("two copies of one type with different supplied residues")
     given = [i for i in range(n) if given_mask >> i & 1]
     supplied = {}
     for j, i in enumerate(given):
         m1.nodes[i]["position"] = sentinel(40 + j)
         m1.nodes[i]["build"] = False
         supplied[i] = m1.nodes[i]["position"].copy()
-    # first molecule is completely supplied (must be skipped and never touched)
-    for i in (0, 1):
+    # the supplied residues of the first molecule must never be touched
+    for i in m0_given:
         m0.nodes[i]["position"] = sentinel(60 + i)
         m0.nodes[i]["build"] = False
     top = make_topology([m0, m1, m2])
@@ -91,7 +98,8 @@ def rewind(sx, B):
         # grow from the last node of the catalogue shape, selected the way gen_coords does it (-start <molname>-<resname>#<resid>)
         import polyply.src.gen_coords as _gc
         start_dict = _gc.find_starting_node_from_spec(top, ["M1-A#%d" % n])
-        sx.claim(start_dict[1] == n - 1 and start_dict[0] is None and start_dict[2] is None, "the start specification selects the named residue")
+        sx.claim(start_dict[1] == n - 1 and start_dict[0] == (n - 1 if twin else None) and start_dict[2] is None,
+                 "the start specification selects the named residue")
     if cached:
         # as happens when restraints are set up before building (set_restraints / end-to-end sampling walk the search tree)
         list(m1.search_tree.edges)
@@ -142,8 +150,10 @@ def rewind(sx, B):
             else:
                 sx.claim(node == root and bool(np.all(np.isfinite(p))), "root positioned")
         # 3. other molecules untouched
-        sx.claim(bool(np.array_equal(eng.get_point(0, 0), sentinel(60)) and np.array_equal(eng.get_point(0, 1), sentinel(61))),
-                 "earlier molecule untouched")
+        if mol != 0:
+            sx.claim(all(bool(np.array_equal(eng.get_point(0, i), sentinel(60 + i))) for i in m0_given), "earlier molecule untouched")
+            if twin:
+                sx.claim(bool(np.all(np.isfinite(eng.get_point(0, n - 1)))), "the built residue of the earlier copy stays positioned")
         ok, msg = engine_views_consistent(eng)
         sx.claim(ok, "engine views consistent", msg)
         if outcomes[idx]:
@@ -203,4 +213,4 @@ def rewind(sx, B):
             sx.claim(bool(np.array_equal(m1.nodes[node]["position"], p)), "accepted residue still at its accepted position")
     ok, msg = engine_views_consistent(eng)
     sx.claim(ok, "engine views consistent", msg)
-    sx.claim(len(eng.gndx_to_tree) == 2 + n + 1, "exactly one position per residue")
+    sx.claim(len(eng.gndx_to_tree) == len(m0) + n + 1, "exactly one position per residue")
